@@ -36,6 +36,85 @@ def set_overlay(overlay: dict | None):
     _TL.overlay = dict(overlay or {})
 
 
+def set_inline(table: dict | None):
+    """R17: {helper name: repo file}. Calls to these free functions inside extracted items are replaced by a block
+    that binds the arguments and contains the helper's body (only for bodies without `return` / `?`)."""
+    _TL.inline = dict(table or {})
+
+
+def _split_args(toks, open_i, close_i, src):
+    args, depth, start = [], 0, open_i + 1
+    if close_i == open_i + 1:
+        return args
+    for j in range(open_i + 1, close_i):
+        t = toks[j].text
+        if t in ('(', '[', '{'):
+            depth += 1
+        elif t in (')', ']', '}'):
+            depth -= 1
+        elif t == ',' and depth == 0:
+            args.append(src[toks[start].start:toks[j - 1].end]); start = j + 1
+    if start < close_i:
+        args.append(src[toks[start].start:toks[close_i - 1].end])
+    return args
+
+
+def _helper_parts(name, relfile):
+    src = read_repo(relfile)
+    it = rsx.find_item(relfile, src, 'fn', name)
+    toks = it.toks
+    if any(t.kind == 'ident' and t.text == 'return' for t in toks[it.open_tok:it.close_tok]) or \
+            any(t.text == '?' for t in toks[it.open_tok:it.close_tok]):
+        raise LostAnchor(f'{relfile}: helper `{name}` has an early return; it cannot be inlined (R17)')
+    pj = it.name_tok + 1
+    while toks[pj].text != '(':
+        if toks[pj].text == '<':
+            raise LostAnchor(f'{relfile}: helper `{name}` is generic; not inlined (R17)')
+        pj += 1
+    pend = rsx.match_close(toks, pj)
+    params = []
+    for a in _split_args(toks, pj, pend, src):
+        m = re.match(r'\s*(mut\s+)?([A-Za-z_][A-Za-z0-9_]*)\s*:\s*(.*)$', a, re.S)
+        if not m:
+            raise LostAnchor(f'{relfile}: helper `{name}`: parameter pattern `{a}` not supported (R17)')
+        params.append((('mut ' if m.group(1) else '') + m.group(2), m.group(3).strip()))
+    body = src[toks[it.open_tok].end:toks[it.close_tok].start]
+    return params, body, it.line_of(it.start)
+
+
+def inline_calls_in_text(text, table, applied, depth=0):
+    """replace calls `name(args)` of table's helpers inside a piece of source text (used for helper bodies / arguments)"""
+    if depth > 4:
+        raise LostAnchor('helper inlining nested too deeply (R17)')
+    toks = rsx.tokenize(text)
+    out, pos = [], 0
+    j = 0
+    while j < len(toks):
+        t = toks[j]
+        if (t.kind == 'ident' and t.text in table and j + 1 < len(toks) and toks[j + 1].text == '('
+                and (j == 0 or toks[j - 1].text not in ('.', '::', 'fn'))):
+            c = rsx.match_close(toks, j + 1)
+            args = [inline_calls_in_text(a, table, applied, depth + 1) for a in _split_args(toks, j + 1, c, text)]
+            out.append(text[pos:t.start]); out.append(_inlined_block(t.text, args, table, applied, depth))
+            pos = toks[c].end
+            j = c + 1
+        else:
+            j += 1
+    out.append(text[pos:])
+    return ''.join(out)
+
+
+def _inlined_block(name, args, table, applied, depth):
+    params, body, line = _helper_parts(name, table[name])
+    if len(params) != len(args):
+        raise LostAnchor(f'helper `{name}`: {len(args)} arguments for {len(params)} parameters (R17)')
+    body = inline_calls_in_text(body, table, applied, depth + 1)
+    tmp = ''.join(f'let __a{depth}_{k}: {params[k][1]} = {a}; ' for k, a in enumerate(args))
+    binds = ''.join(f'let {params[k][0]} = __a{depth}_{k}; ' for k in range(len(args)))
+    applied.append(f'R17 {table[name]}:{line}: call of helper `{name}` replaced by a block binding its arguments around its body')
+    return '{ ' + tmp + '{ ' + binds + body + ' } }'
+
+
 def read_repo(relfile: str) -> str:
     ov = getattr(_TL, 'overlay', None)
     if ov and relfile in ov:
@@ -209,6 +288,7 @@ def build_item(spec: dict, sections: dict, substs: list, defines: set, log: list
         #      so that renaming a local or a parameter in /repo does not detach the annotations
         if ('names',) in sections:
             lets = []
+            let_inits = []    # identifiers occurring in each let's initializer
             for j in range(it.open_tok + 1, it.close_tok):
                 if toks[j].kind == 'ident' and toks[j].text == 'let':
                     k = j + 1
@@ -216,6 +296,17 @@ def build_item(spec: dict, sections: dict, substs: list, defines: set, log: list
                         k += 1
                     if toks[k].kind == 'ident' and toks[k + 1].text in ('=', ':', ';'):
                         lets.append(toks[k].text)
+                        e = k + 1
+                        idents = set()
+                        while e < it.close_tok and toks[e].text != ';':
+                            if toks[e].text in ('(', '[', '{'):
+                                ce = rsx.match_close(toks, e)
+                                idents.update(t.text for t in toks[e:ce] if t.kind == 'ident')
+                                e = ce
+                            elif toks[e].kind == 'ident':
+                                idents.add(toks[e].text)
+                            e += 1
+                        let_inits.append(idents)
             params = []
             pj = it.name_tok + 1
             while toks[pj].text != '(':
@@ -243,8 +334,21 @@ def build_item(spec: dict, sections: dict, substs: list, defines: set, log: list
                 scope = None
                 if '@' in tname:
                     tname, scope = tname.split('@')
+                mi = re.match(r'init:(\w+)#(\d+)$', ref)
+                if mi:
+                    # the n-th `let` whose initializer mentions the given identifier
+                    if tname in lets:
+                        continue
+                    hits = [lets[q] for q in range(len(lets)) if mi.group(1) in let_inits[q]]
+                    if int(mi.group(2)) >= len(hits):
+                        raise LostAnchor(f'{where}: //@names {tname}={ref}: no such binding')
+                    for sc in ([scope] if scope else ['contract', 'body']):
+                        ren[sc][tname] = hits[int(mi.group(2))]
+                    continue
                 m = re.match(r'(let|param)(\d+)$', ref)
                 pool = lets if m and m.group(1) == 'let' else params
+                if m and tname in pool:
+                    continue      # the template's name still exists in the source: no renaming needed
                 if not m or int(m.group(2)) >= len(pool):
                     raise LostAnchor(f'{where}: //@names {tname}={ref}: no such binding ({len(lets)} lets, {len(params)} params)')
                 cur_name = pool[int(m.group(2))]
@@ -367,6 +471,19 @@ def build_item(spec: dict, sections: dict, substs: list, defines: set, log: list
             edits.append(Edit(off, off, sections[('tail',)].rstrip() + '\n', 'tail'))
         lo_t, hi_t = it.open_tok, it.close_tok
         _rewrite_r2_r4(it, rewrites, edits, applied, relfile, lo_t, hi_t)
+        # ---- R17: on-demand inlining of return-free helper functions of the same file
+        inl = getattr(_TL, 'inline', None)
+        if inl:
+            j = lo_t
+            while j < hi_t:
+                t = toks[j]
+                if (t.kind == 'ident' and t.text in inl and toks[j + 1].text == '(' and toks[j - 1].text not in ('.', '::', 'fn')):
+                    c = rsx.match_close(toks, j + 1)
+                    args = [inline_calls_in_text(a, inl, applied) for a in _split_args(toks, j + 1, c, src)]
+                    edits.append(Edit(t.start, toks[c].end, _inlined_block(t.text, args, inl, applied, 0), 'R17'))
+                    j = c + 1
+                else:
+                    j += 1
         # ---- R16: a match arm outside the contract's precondition is replaced by an unreachable marker
         for pat in sections.get(('droparm',), []):
             ptoks = [t.text for t in rsx.tokenize(pat)]
